@@ -167,6 +167,25 @@ impl<'ast> Visit<'ast> for LoopFinder {
                 }
             }
         }
+        // D13: RECV.map(|PAT| BODY) on an Option receiver (if RECV is not an Option the rewritten text does not type-check)
+        if e.method == "map" && e.args.len() == 1 {
+            if let syn::Expr::Closure(c) = &e.args[0] {
+                if c.inputs.len() == 1 {
+                    let mut ef = EscapeFinder::default();
+                    ef.visit_expr(&c.body);
+                    if ef.escapes == 0 {
+                        let call = e.span().byte_range();
+                        let recv = e.receiver.span().byte_range();
+                        let pat = c.inputs[0].span().byte_range();
+                        let body = c.body.span().byte_range();
+                        self.vd.push(format!(
+                            "{{\"rule\":\"D13\",\"call\":[{},{}],\"recv\":[{},{}],\"pat\":[{},{}],\"body\":[{},{}]}}",
+                            call.start, call.end, recv.start, recv.end, pat.start, pat.end, body.start, body.end
+                        ));
+                    }
+                }
+            }
+        }
         // D12: X.into_iter().filter(|PAT| COND).collect::<Vec<_>>()   (PAT an identifier bound to a reference)
         if e.method == "collect" && e.args.is_empty() {
             if let syn::Expr::MethodCall(fl) = &*e.receiver {
